@@ -17,6 +17,7 @@ DECIDED += '; R13 the multicast group table is accessed only with keys built by 
 DECIDED += '; R10 also the converse: taking the parked datagram releases its slot in the same function; R14 Udp::connect overwrites the stored peer'
 DECIDED += "; R4 also: the multicast member key is (host address, the socket's port); R2 also: receive functions report the size Rx::try_recv_from computed"
 DECIDED += "; R5 also: the broadcast target filter looks at the bound port only; the loop-back copy of a multicast datagram follows the member's own option"
+DECIDED += '; R15 a refused multicast join records nothing; host::matches compares address and port'
 ASSUMPTIONS = ["mpsc::Sender::try_send either enqueues or returns the value"]
 
 RFN = "turmoil::host::Udp::receive_from_network"
